@@ -14,21 +14,27 @@ import (
 type kind int
 
 const (
-	kNat      kind = iota // Go int (len, loop index)                     -> nat
-	kU64                  // uint64                                       -> N (wrapping ops)
-	kCur                  // types.Currency                               -> N (checked ops)
-	kAddr                 // types.Address (numbered by the harness)      -> N
-	kHash                 // types.Hash256 (numbered, 0 = zero value)     -> N
-	kBool                 // bool
-	kOutput               // types.SiacoinOutput                          -> output
-	kRev                  // types.FileContract / FileContractRevision    -> rev
-	kSettings             // rhp2.HostSettings                            -> settings2
-	kPTable               // rhp3.HostPriceTable                          -> ptable
-	kKey                  // types.UnlockKey (only as argument of contractUnlockConditions)
-	kUC                   // types.UnlockConditions, represented by the id of its UnlockHash()
-	kList                 // []T
-	kErr                  // error
-	kInt                  // untyped integer constant
+	kNat       kind = iota // Go int (len, loop index)                     -> nat
+	kU64                   // uint64                                       -> N (wrapping ops)
+	kCur                   // types.Currency                               -> N (checked ops)
+	kAddr                  // types.Address (numbered by the harness)      -> N
+	kHash                  // types.Hash256 (numbered, 0 = zero value)     -> N
+	kBool                  // bool
+	kOutput                // types.SiacoinOutput                          -> output
+	kRev                   // types.FileContract / FileContractRevision    -> rev
+	kSettings              // rhp2.HostSettings                            -> settings2
+	kPTable                // rhp3.HostPriceTable                          -> ptable
+	kKey                   // types.UnlockKey (only as argument of contractUnlockConditions)
+	kUC                    // types.UnlockConditions, represented by the id of its UnlockHash()
+	kList                  // []T
+	kErr                   // error
+	kInt                   // untyped integer constant
+	kPData                 // rhp/v3 programData ([]byte, len = cap)            -> pdata
+	kView                  // []byte sliced out of the program data          -> bview
+	kSectorPtr             // *[rhp2.SectorSize]byte                          -> unit
+	kUKey                  // types.UnlockKey as a struct value (MDM only)    -> ukey
+	kSpec                  // types.Specifier (16 bytes, little-endian number) -> N
+	kSig                   // types.Signature (64 bytes, little-endian number) -> N
 )
 
 type ty struct {
@@ -37,25 +43,33 @@ type ty struct {
 }
 
 var (
-	tNat      = &ty{k: kNat}
-	tU64      = &ty{k: kU64}
-	tCur      = &ty{k: kCur}
-	tAddr     = &ty{k: kAddr}
-	tHash     = &ty{k: kHash}
-	tBool     = &ty{k: kBool}
-	tOutput   = &ty{k: kOutput}
-	tRev      = &ty{k: kRev}
-	tSettings = &ty{k: kSettings}
-	tPTable   = &ty{k: kPTable}
-	tKey      = &ty{k: kKey}
-	tUC       = &ty{k: kUC}
-	tErr      = &ty{k: kErr}
-	tInt      = &ty{k: kInt}
-	tOutputs  = &ty{k: kList, elem: tOutput}
-	tCurs     = &ty{k: kList, elem: tCur}
+	tNat       = &ty{k: kNat}
+	tU64       = &ty{k: kU64}
+	tCur       = &ty{k: kCur}
+	tAddr      = &ty{k: kAddr}
+	tHash      = &ty{k: kHash}
+	tBool      = &ty{k: kBool}
+	tOutput    = &ty{k: kOutput}
+	tRev       = &ty{k: kRev}
+	tSettings  = &ty{k: kSettings}
+	tPTable    = &ty{k: kPTable}
+	tKey       = &ty{k: kKey}
+	tUC        = &ty{k: kUC}
+	tErr       = &ty{k: kErr}
+	tInt       = &ty{k: kInt}
+	tOutputs   = &ty{k: kList, elem: tOutput}
+	tCurs      = &ty{k: kList, elem: tCur}
+	tPData     = &ty{k: kPData}
+	tView      = &ty{k: kView}
+	tSectorPtr = &ty{k: kSectorPtr}
+	tUKey      = &ty{k: kUKey}
+	tSpec      = &ty{k: kSpec}
+	tSig       = &ty{k: kSig}
 )
 
-func (t *ty) isN() bool { return t.k == kU64 || t.k == kCur || t.k == kAddr || t.k == kHash }
+func (t *ty) isN() bool {
+	return t.k == kU64 || t.k == kCur || t.k == kAddr || t.k == kHash || t.k == kSpec || t.k == kSig
+}
 
 func (t *ty) same(o *ty) bool {
 	if t.k != o.k {
@@ -99,6 +113,18 @@ func (t *ty) String() string {
 		return "error"
 	case kInt:
 		return "untyped int"
+	case kPData:
+		return "programData"
+	case kView:
+		return "[]byte"
+	case kSectorPtr:
+		return "*[SectorSize]byte"
+	case kUKey:
+		return "UnlockKey"
+	case kSpec:
+		return "Specifier"
+	case kSig:
+		return "Signature"
 	}
 	return "?"
 }
@@ -108,8 +134,16 @@ func (t *ty) coq() string {
 	switch t.k {
 	case kNat:
 		return "nat"
-	case kU64, kCur, kAddr, kHash, kUC:
+	case kU64, kCur, kAddr, kHash, kUC, kSpec, kSig:
 		return "N"
+	case kPData:
+		return "pdata"
+	case kView:
+		return "bview"
+	case kSectorPtr:
+		return "unit"
+	case kUKey:
+		return "ukey"
 	case kBool:
 		return "bool"
 	case kOutput:
@@ -131,8 +165,10 @@ func (t *ty) zero() string {
 	switch t.k {
 	case kNat:
 		return "0%nat"
-	case kU64, kCur, kAddr, kHash:
+	case kU64, kCur, kAddr, kHash, kSpec, kSig:
 		return "0"
+	case kUKey:
+		return "zero_ukey"
 	case kBool:
 		return "false"
 	case kRev:
@@ -165,6 +201,27 @@ var goTypes = map[string]*ty{
 	"[]types.SiacoinOutput":      tOutputs,
 }
 
+// TYPE TABLE of the MDM output (rhp/v3/execute.go programData accessors); overrides goTypes
+var mdmTypes = map[string]*ty{
+	"programData":            tPData,
+	"[]byte":                 tView,
+	"*[rhp2.SectorSize]byte": tSectorPtr,
+	"types.UnlockKey":        tUKey,
+	"types.Signature":        tSig,
+	"types.Specifier":        tSpec,
+}
+
+// *(*T)(s) for a fixed-size byte-array type T: the little-endian number of the first n bytes of s,
+// Panic when s is shorter
+var derefConv = map[string]struct {
+	n  int
+	ty *ty
+}{
+	"types.Hash256":   {32, tHash},
+	"types.Specifier": {16, tSpec},
+	"types.Signature": {64, tSig},
+}
+
 type fieldInfo struct {
 	get, set string // accessor of the model record; setter of GenPrelude ("" = read-only)
 	ty       *ty
@@ -186,6 +243,10 @@ var fields = map[kind]map[string]fieldInfo{
 	kOutput: {
 		"Address": {"oaddr", "set_oaddr", tAddr},
 		"Value":   {"oval", "set_oval", tCur},
+	},
+	kUKey: {
+		"Algorithm": {"k_alg", "set_k_alg", tSpec},
+		"Key":       {"k_key", "set_k_key", tView},
 	},
 	kSettings: {
 		"AcceptingContracts": {"s_accepting", "", tBool},
@@ -211,11 +272,11 @@ var fields = map[kind]map[string]fieldInfo{
 }
 
 type methodInfo struct {
-	coq     string // %r = receiver, %a = the argument
-	argTy   *ty    // nil = no argument
-	resTy   *ty
-	monadic bool // the Coq term has type res T (can panic)
-	pair    bool // the Coq term has type T * bool (…WithOverflow/…WithUnderflow)
+	coq      string // %r = receiver, %a = the argument
+	argTy    *ty    // nil = no argument
+	resTy    *ty
+	monadic  bool // the Coq term has type res T (can panic)
+	pair     bool // the Coq term has type T * bool (…WithOverflow/…WithUnderflow)
 	formOnly bool // only available in FormationGen (defined in Formation/Model.v)
 }
 
@@ -251,14 +312,16 @@ type constInfo struct {
 	coq      string
 	ty       *ty
 	formOnly bool
+	mdmOnly  bool
 }
 
 // CONSTANT TABLE
 var constants = map[string]constInfo{
-	"types.ZeroCurrency":      {"0", tCur, false},
-	"types.MaxRevisionNumber": {"max64", tU64, false}, // core: = math.MaxUint64
-	"math.MaxUint64":          {"max64", tU64, false},
-	"types.VoidAddress":       {"void_addr", tAddr, true}, // the zero Address
+	"types.ZeroCurrency":      {"0", tCur, false, false},
+	"types.MaxRevisionNumber": {"max64", tU64, false, false}, // core: = math.MaxUint64
+	"math.MaxUint64":          {"max64", tU64, false, false},
+	"types.VoidAddress":       {"void_addr", tAddr, true, false}, // the zero Address
+	"rhp2.SectorSize":         {"SectorSize", tInt, false, true}, // untyped constant 1 << 22 (MDM/Model.v)
 }
 
 // the definition every translated file must have for contractUnlockConditions (whitespace-free)
@@ -273,7 +336,8 @@ func init() {
 		N nat bool unit list option res Ok Err Panic EInvalid bind tt true false negb andb orb length fst snd Some None
 		rev output settings2 ptable bad nth_out nth_res set_nth for_range mk_outputs zero_rev zero_output
 		wadd wsub wmul cadd csub cmul64 cadd_o csub_u cmul64_o max64 void_addr uhexp
-		valid_renter valid_host missed_renter missed_host`) {
+		valid_renter valid_host missed_renter missed_host
+		pdata bview ukey plen pd_slice view_array view_sector zero_ukey SectorSize v_len v_off v_data`) {
 		reserved[w] = true
 	}
 	for _, m := range fields {
@@ -330,6 +394,8 @@ func tableComment() string {
 	b.WriteString("   constants: " + strings.Join(cs, ", ") + ", types.Hash256{} -> 0, types.FileContractRevision{} -> zero_rev\n")
 	b.WriteString("   uint64 + - * -> wadd wsub wmul; == != < <= on uint64/Currency/Address/Hash256 -> =? <? <=? on N; on int -> Nat.eqb Nat.ltb Nat.leb;\n")
 	b.WriteString("   xs[i] -> nth_out xs i / nth_res xs i (Panic out of range); len -> length; make([]T, n) -> mk_outputs n;\n")
+	b.WriteString("   programData (MDM output only): uint64(len(pd)) -> plen pd; pd[lo:hi] -> pd_slice pd lo hi (Panic unless lo <= hi <= len); conversion of s to *[rhp2.SectorSize]byte -> view_sector s;\n")
+	b.WriteString("     dereferenced conversion of s to *types.Hash256|Specifier|Signature -> view_array s 32|16|64; binary.LittleEndian.Uint64(s) -> view_array s 8 (Panic when s is shorter); UnlockKey{Algorithm, Key} -> ukey{k_alg, k_key}\n")
 	b.WriteString("   xs[i] = v (fresh slice) -> set_nth xs i v after a checked read; for .. range -> for_range; errors.New/fmt.Errorf -> Err EInvalid")
 	return b.String()
 }
